@@ -100,6 +100,19 @@ def conv_int(a, t):
     return np.int64(a) if t == 'np' else np.array(a, dtype=np.int64) if t == 'arr0' else a
 
 
+def typed_phi(inp):
+    """The recorded density (exact values) as an array of the element type in.ptype (default float64) and memory layout
+    in.layout.  The conversion must be exact: the record states the values the function receives."""
+    a = dec_phi(inp['phi'])
+    t = inp.get('ptype')
+    if t:
+        b = a.astype(t)
+        if not np.array_equal(b.astype(np.longdouble), a.astype(np.longdouble)):
+            raise common.MachineryError('density values are not representable as %s' % t)
+        a = b
+    return lay_phi(a, inp.get('layout'))
+
+
 def typed_grid(g, inp):
     if inp.get('gtype') == 'int':     # the two-point grid [0, 1] as an integer ndarray
         assert all(x == int(x) for x in g)
@@ -139,7 +152,7 @@ def build_call(op, site, inp):
     name = fn_name(site)
     layout = inp.get('layout')
     kw = {'deme_ids': list(inp['deme_ids'])} if 'deme_ids' in inp else {}
-    phi = lay_phi(dec_phi(inp['phi']), layout)
+    phi = typed_phi(inp)
     inplace = None
     if op in ('split1d', 'split'):
         g = lay_grid(typed_grid(dec_grid(inp['g']), inp), layout)
@@ -204,7 +217,7 @@ def execute(op, site, inp):
     out = None
     for k in range(nth):
         if k and inplace is not None:
-            args[inplace] = lay_phi(dec_phi(inp['phi']), inp.get('layout'))
+            args[inplace] = typed_phi(inp)
         try:
             out = {'phi': enc_phi(fn(*args, **kw))}
         except common.MachineryError:
@@ -419,6 +432,7 @@ def records(ctx):
     fixed_records(add, random.Random(ctx.seed + 606), ctors, pulses, ctx.quick)
     long_axis_records(add, random.Random(ctx.seed + 1006), ctors, pulses, ctx.quick)
     reuse_records(add, random.Random(ctx.seed + 1606), ctors, pulses, ctx.quick)
+    dtype_records(add, random.Random(ctx.seed + 1706), ctors, ctx.quick)
     # ---- pulses
     for pf in pulses:
         P = pf['P']
@@ -597,6 +611,48 @@ def fixed_records(add, rng, ctors, pulses, quick):
                 inp['seqtype'] = st
             add('reorder', 'PhiManip.reorder_pops', inp)
         add('reorder', 'PhiManip.reorder_pops', {'phi': enc_phi(make_phi(rng, sh)), 'perm': ident[1:] + ident[:1], 'layout': 'sliced'})
+
+
+DTYPED = '[density dtype]'
+#: element types of the density argument that clean dadi handles like float64 when the values are exactly representable
+PTYPES = ('float32', 'int64', 'int32', 'longdouble')
+
+
+def dtype_records(add, rng, ctors, quick):
+    """Element type of the density (deterministic, both tiers): every split / constructor function receives a density
+    stored as float32, int64 / int32 (integer values) and longdouble whose values are exactly representable; the result
+    is judged by the ordinary clauses at the ordinary tolerance against those values (the new array is a float64 array
+    computed from them, not an array of the input's element type)."""
+    def values(shape, t):
+        size = int(np.prod(shape))
+        if t.startswith('int'):
+            a = np.array([float(rng.choice([0, rng.randint(1, 60)])) for _ in range(size)])
+        else:             # float32 values with full 24-bit mantissas (exactly representable in every wider type)
+            a = np.array([rng.uniform(0.05, 1.0) * 10 ** rng.uniform(-2, 3) for _ in range(size)]).astype(np.float32).astype(float)
+        return a.reshape(shape)
+
+    def grid(n, k):
+        return make_grid(rng, n, GRID_KINDS[k % len(GRID_KINDS)])
+    for j, t in enumerate(PTYPES):
+        g = grid(5, j)
+        add('split1d', 'PhiManip.phi_1D_to_2D' + DTYPED, {'phi': enc_phi(values([5], t)), 'g': rats(g), 'ptype': t})
+        g = grid(4, j + 1)
+        for k in (1, 2):
+            add('split', 'PhiManip.phi_2D_to_3D_split_%d' % k + DTYPED, {'phi': enc_phi(values([4, 4], t)), 'g': rats(g), 'k': k, 'ptype': t})
+        for name, P in ctors:
+            m = P - 1
+            n = 3 if P >= 3 else 4
+            vertex = [0.0] * m
+            vertex[(j + P) % m] = 1.0
+            for kind, fs, mode in (('interior', make_props(rng, m, 'interior'), 'same'), ('vertex', vertex, 'same_length'),
+                                   ('zero', [0.0] * m, 'same'), ('aligned', make_props(rng, m, 'aligned'), 'same')):
+                if mode == 'same':
+                    gs = [grid(n, 3 if kind == 'aligned' else j + P)] * (P + 1)
+                else:
+                    gs = [grid(n, j + P + a) for a in range(P + 1)]
+                add('admix_new', 'PhiManip.' + name + DTYPED,
+                    {'phi': enc_phi(values([len(x) for x in gs[:P]], t)), 'gs': [rats(x) for x in gs[:P]], 'gnew': rats(gs[P]), 'fs': rats(fs),
+                     'kind': 'dtype:' + kind, 'grids': mode, 'ptype': t})
 
 
 REUSED = '[arguments reused]'
@@ -814,9 +870,9 @@ def nontrivial(r):
     if r['op'] in ('pulse', 'admix_new'):
         if i['kind'] == 'zero' and r['op'] == 'admix_new':
             return (r['site'], 'zero')
-        return (r['site'], i['kind'], tuple(i['phi']['sh']), i['grids'], i.get('layout'), i.get('ftype'), i.get('gtype'), i.get('nth'))
+        return (r['site'], i['kind'], tuple(i['phi']['sh']), i['grids'], i.get('layout'), i.get('ftype'), i.get('gtype'), i.get('nth'), i.get('ptype'))
     return (r['site'], tuple(i['phi']['sh']), i.get('a'), tuple(i.get('keep', ())), tuple(i.get('perm', ())),
-            i.get('layout'), i.get('call'), i.get('seqtype'), i.get('atype'), i.get('gtype'), i.get('nth'))
+            i.get('layout'), i.get('call'), i.get('seqtype'), i.get('atype'), i.get('gtype'), i.get('nth'), i.get('ptype'))
 
 
 _mut_turn = itertools.count()
@@ -890,6 +946,8 @@ def what_of(rec, clause):
         desc[clause] = 'changed an argument object of its caller: clause %s violated (%s)' % (clause, _changed(rec))
     nth = ' (call no. %d with the same argument objects%s)' % (i['nth'], ', '.join(
         [''] + ['%s as %s' % (k, i[k]) for k in ('seqtype', 'atype', 'ftype', 'gtype') if k in i])) if 'nth' in i else ''
+    if 'ptype' in i:
+        nth += ' (density passed as %s ndarray)' % i['ptype']
     return 'record %s: %s%s %s [shape %s%s]' % (
         rec['id'], rec.get('site'), nth, desc.get(clause, 'clause %s violated%s' % (clause, (' for proportions %s' % fs) if fs else '')),
         i['phi']['sh'], (', grids ' + i['grids']) if 'grids' in i else '')
